@@ -124,7 +124,7 @@ Expected(w) ==
     [] w \in {"get_nullkey", "set_null", "push_null", "pushat_null", "rem_null", "concat_null"} -> {"ValueError"}
     [] w = "mem_null" -> {"ValueError", ""}          \* "NULL is not a member" is an acceptable answer (empty container)
     [] w \in {"get_alienkey", "set_alienkey", "popat_alienkey", "set_alien", "push_alien", "pushat_alien", "concat_alien",
-               "concat_int", "assign_int"}
+               "concat_int", "assign_int", "new_alien"}
          -> {"ClassError", "TypeError", "ValueError"}
     [] w = "resize_grow" -> {"FormatError"}
     [] OTHER -> {}
